@@ -280,6 +280,70 @@ func enlargeArgs(args []any, salt int) []any {
 	return out
 }
 
+// firstUseConcurrent: a struct type that is known to the library only through a member (its list of
+// members has not been asked for yet) is used with an asterisk for the first time by several goroutines
+// at once.  Every such Prepare succeeds, and afterwards the type's columns are its tags, each once, in
+// sorted order, as for a type that was first used alone.
+func firstUseConcurrent(viol func(prop, name, q, detail string)) int {
+	done := 0
+	for i, sample := range hugeSamples {
+		name := hugeName(i)
+		if _, err := sqlair.Prepare("SELECT &"+name+".c000 FROM t", sample); err != nil {
+			viol("C07", "well-typed-statement-rejected", "SELECT &"+name+".c000 FROM t", err.Error())
+			continue
+		}
+		q := "SELECT &" + name + ".* FROM t"
+		var wg sync.WaitGroup
+		var mu sync.Mutex
+		bad := ""
+		start := make(chan struct{})
+		for g := 0; g < 8; g++ {
+			wg.Add(1)
+			go func() {
+				defer wg.Done()
+				defer func() {
+					if rec := recover(); rec != nil {
+						mu.Lock()
+						bad = fmt.Sprintf("panic: %v", rec)
+						mu.Unlock()
+					}
+				}()
+				<-start
+				if _, err := sqlair.Prepare(q, sample); err != nil {
+					mu.Lock()
+					bad = err.Error()
+					mu.Unlock()
+				}
+			}()
+		}
+		close(start)
+		wg.Wait()
+		if bad == "" {
+			// alone, afterwards: accepted, and the generated columns are the sorted tags
+			stmt, err := sqlair.Prepare(q, sample)
+			if err != nil {
+				bad = "afterwards, alone: " + err.Error()
+			} else {
+				got := runOnce(stmt, nil)
+				var want []string
+				for k := 0; k < 120; k++ {
+					want = append(want, fmt.Sprintf("c%03d AS _sqlair_%d", k, k))
+				}
+				if !strings.Contains(got, "SELECT "+strings.Join(want, ", ")+" FROM t") {
+					bad = "afterwards, alone: generated " + trunc(got, 300)
+				}
+			}
+		}
+		if bad != "" {
+			viol("C07", "concurrent-prepare-differs", q, "first use of the type's member list by 8 goroutines at once: "+bad)
+			viol("C16", "concurrent-prepare-differs", q, "first use of the type's member list by 8 goroutines at once: "+bad)
+			viol("C05", "concurrent-prepare-differs", q, "first use of the type's member list by 8 goroutines at once: "+bad)
+		}
+		done++
+	}
+	return done
+}
+
 type determStats struct {
 	Cases      int            `json:"cases"`
 	Prepared   int            `json:"prepared"`
@@ -287,6 +351,7 @@ type determStats struct {
 	Reshaped   int            `json:"second_argument_shape_differs"`
 	Concurrent int            `json:"concurrent_groups"`
 	BigSlices  int            `json:"concurrent_groups_with_long_slices"`
+	FirstUse   int            `json:"types_first_used_by_concurrent_prepares"`
 	Runs       int            `json:"runs"`
 	Samples    []string       `json:"samples"`
 }
@@ -330,6 +395,7 @@ func cmdDeterm(args []string) int {
 	r := newRng(*seed)
 	g := &bindGen{r: r, f: &filler{r: r.fork(), zeroP: 2, nilP: 1}}
 	st := determStats{Results: map[string]int{}}
+	st.FirstUse = firstUseConcurrent(viol2)
 	var prevQ, prevA1 string
 	var prevSamples, prevArgs []any
 	for st.Cases < *n {
